@@ -122,7 +122,26 @@ def model_max(*args, **kw):
     return builtins.max(*args, **kw)
 
 
+class _ListMeta(type):
+    def __instancecheck__(cls, obj):
+        return isinstance(obj, builtins.list)
+
+    def __subclasscheck__(cls, sub):
+        return issubclass(sub, builtins.list)
+
+
+class model_list(metaclass=_ListMeta):
+    """list(x): a model object that is itself a list-like abstraction answers with its own copy
+    (__pyvc_list__); everything else is the real list.  isinstance(x, list) keeps its meaning."""
+
+    def __new__(cls, *args, **kw):
+        if len(args) == 1 and not kw and hasattr(args[0], "__pyvc_list__"):
+            return args[0].__pyvc_list__()
+        return builtins.list(*args, **kw)
+
+
 REBOUND = {
+    "list": model_list,
     "len": model_len,
     "int": model_int,
     "float": model_float,
